@@ -44,6 +44,13 @@ void rotenc_decode(rotenc_t *r, uint8_t state)
 
 uint16_t rotenc_count14(rotenc_t *r)
 {
-	return ((r->internal_count >> 2) & 0x3f00) + r->count;
+	/* The latched position is kept as 8 bits only. Reconstruct its upper
+	 * bits from the live position: it is the value nearest to the live
+	 * position (in clicks) whose low byte is the latched count.
+	 */
+	uint16_t live = r->internal_count >> 2;
+	int8_t behind = (int8_t) (r->count - (uint8_t) live);
+
+	return (live + behind) & 0x3fff;
 }
 
